@@ -31,6 +31,14 @@ def handle (ws : List String) : String :=
       | .ok (c, i') => s!"{hxB c} {hxB i'}"
       | .error e => s!"err:{e}"
     | _, _, _ => "err:parse"
+  -- `thp <suite> <interim_before> <wire 1|2> <framed content> <signature> <confirmation tag>`: the two transcript hashes from the
+  -- parts of an AuthenticatedContent (a PrivateMessage commit as decrypted by a member: wire format 2)
+  | ["thp", suite, interim, wire, fc, sg, tag] =>
+    match suite.toNat? >>= suite?, unhxB interim, wire.toNat?, unhxB fc, unhxB sg, unhxB tag with
+    | some s, some i, some w, some fc, some sg, some tag =>
+      let confirmed := confirmedHashWith (hashB s.alg) i (confirmedTranscriptHashInput (Transcript.u16 w) fc sg)
+      s!"{hxB confirmed} {hxB (interimHashWith (hashB s.alg) confirmed tag)}"
+    | _, _, _, _, _, _ => "err:parse"
   | ["mtag", suite, key, ctx, msg] =>
     match suite.toNat? >>= suite?, unhxB key, unhxB ctx, unhxB msg with
     | some s, some k, some c, some m =>
